@@ -25,6 +25,13 @@ func checkC07(p *Program, tier string) *Result {
 	if r.takeFrom(sub, "R-SIBLING", "detectBadSecret")+r.takeFrom(sub, "R-SIBLING", "mismatch-producer") < 14 {
 		r.undecided("R-SIBLING", "mismatch-detection", "-", "the key-mismatch detector's clauses were not produced")
 	}
+	// rejection half, the header: a request is 'invalid' by the header validator's rules; that validator must refuse
+	// every packet type, version and sequence number RFC 8907 does not define (R-ENUM on the header's own fields)
+	esub := newResult("C01")
+	ruleEnum(p, esub)
+	if r.takeFrom(esub, "R-ENUM", "validate:HeaderType")+r.takeFrom(esub, "R-ENUM", "validate:Version") < 2 {
+		r.undecided("R-ENUM", "validate:header-fields", "-", "the validators of the header's packet type and version were not found")
+	}
 	// the reply marshals: text echoed into reply fields is ASCII on every execution
 	ruleEcho(p, r)
 	r.floor("R-ECHO", 30)
